@@ -122,6 +122,15 @@ Clone(i) ==
   /\ last' = [a |-> "Clone", i |-> i]
   /\ UNCHANGED <<glob, dict>>
 
+\* covariance of two pooled objects: an OBSERVATION.  It reads the data of both and the error each one's LAST analysis left in
+\* its cache (the correlation is rescaled by those errors) - nothing else, and it changes nothing.  Without an analysis on record
+\* for both it is refused.
+Cov(i, j) ==
+  /\ i <= j
+  /\ last' = [a |-> "Cov", i |-> i, j |-> j,
+              res |-> IF cache[i] # NoneC /\ cache[j] # NoneC THEN [k |-> "ok", of |-> <<cache[i], cache[j]>>] ELSE [k |-> "exc"]]
+  /\ UNCHANGED <<objs, glob, dict, cache>>
+
 Next == \/ \E e \in EnsSet : NewPrimary(e)
         \/ \E i \in DOMAIN objs : Reload(i)
         \/ \E i \in DOMAIN objs : Clone(i)
@@ -131,6 +140,7 @@ Next == \/ \E e \in EnsSet : NewPrimary(e)
         \/ \E i \in DOMAIN objs, arg \in Args : Gm(i, arg)
         \/ \E i, j \in DOMAIN objs : Derive(i, j)
         \/ \E w, i \in DOMAIN objs : Reweight(w, i)
+        \/ \E i, j \in DOMAIN objs : Cov(i, j)
 
 Spec == Init /\ [][Next]_vars
 
@@ -163,9 +173,18 @@ CopiesCarryData == [][last'.a \in {"Reload", "Clone"} =>
                         /\ objs'[Len(objs')] = objs[last'.i]
                         /\ cache'[Len(cache')] = IF last'.a = "Clone" THEN cache[last'.i] ELSE NoneC]_vars
 
+\* a covariance request is a pure observation of the two caches as they are now: whatever analyses, slot changes or copies came
+\* before, it sees the LAST analysis of exactly these two objects (their data and effective parameters), and is refused iff one is missing
+CovIsAnObservation == [][last'.a = "Cov" =>
+                           /\ UNCHANGED <<objs, glob, dict, cache>>
+                           /\ (last'.res.k = "exc") = (cache[last'.i] = NoneC \/ cache[last'.j] = NoneC)
+                           /\ last'.res.k = "ok" => /\ last'.res.of[1].data = objs[last'.i].data /\ last'.res.of[2].data = objs[last'.j].data
+                                                    /\ last'.res.of = <<cache[last'.i], cache[last'.j]>>]_vars
+
 Bounded == TLCGet("level") <= MaxDepth
 \* simulation only (Sim_Session.cfg): a change of a parameter slot is followed by an analysis, so that generated behaviours
 \* spend their steps on what the machine is about instead of on runs of slot changes
 ParamActs == {"SetGlobal", "SetDict", "DelDict"}
-SimBias == last.a \in ParamActs => last'.a = "Gm"
+SimBias == /\ last.a \in ParamActs => last'.a = "Gm"
+           /\ last.a = "Cov" => last'.a # "Cov"
 =============================================================================
